@@ -32,6 +32,7 @@ def run(ctx, rep):
     s4(ctx, rep)
     s5(ctx, rep)
     s6(ctx, rep, T)
+    s7(ctx, rep, T)
 
 
 def s1(ctx, rep):
@@ -125,6 +126,82 @@ def s2(ctx, rep):
             rep.check(not conds, 'S2', f"push:unconditional:{vt.show(c.get('recv'))[-12:]}", 'unconditional', f"ParsedData::push stores an item only under `{vt.show(conds[0]['c'])[:80] if conds else ''}` — some annotated items are dropped (and differently so depending on how items are split across files)", {'file': p['file'], 'line': c.get('line')})
 
 
+REMOVERS = ('dedup', 'dedup_by', 'dedup_by_key', 'retain', 'retain_mut', 'truncate', 'clear', 'pop', 'remove', 'swap_remove', 'drain', 'split_off', 'drain_filter', 'extract_if')
+ITEM_VECS = ('structs', 'enums', 'aliases', 'consts')
+
+
+def s7(ctx, rep, T):
+    """S7: nothing between parsing and generation removes items: no removing operation on the item vectors of a
+    ParsedData anywhere in the workspace; and no member of an item is inspected for rejection before the skip filter."""
+    n = 0
+    bad = 0
+    for f in ctx.astq['functions']:
+        if not (f['file'].startswith('core/src') or f['file'].startswith('cli/src')):
+            continue
+        for c in f['calls']:
+            if c.get('f') not in REMOVERS or c.get('recv') is None:
+                continue
+            r = vt.strip(c['recv'])
+            canon = T.canon_s(r) if isinstance(r, dict) else None
+            txt = vt.show(r)
+            is_item_vec = (canon or '').startswith('ParsedData.') and (canon or '').split('.')[-1] in ITEM_VECS
+            if not is_item_vec:
+                # a local destructured from a ParsedData (`let ParsedData { structs, .. } = data`) keeps the field name
+                is_item_vec = isinstance(r, dict) and r.get('k') in ('payload', 'field') and r.get('field', r.get('name')) in ITEM_VECS and 'ParsedData' in json.dumps(r)[:600]
+            n += 1
+            if is_item_vec:
+                bad += 1
+                rep.fail('S7', f"{f['name']}:{c['f']}:{(canon or txt)[-24:]}", f"{f['qual']} removes items from `{txt[:50]}` with `{c['f']}`: annotated items disappear from the output without a diagnostic (same-named items in different modules/files compare equal on the Rust name alone)", {'file': f['file'], 'line': c.get('line')})
+    rep.analysed['S7:removing calls scanned'] = n
+    if not bad:
+        rep.ok('S7', 'no-item-removal', f'no removing operation on ParsedData.{{structs,enums,aliases,consts}} ({n} removing calls scanned)')
+    # members are only looked at after the skip filter
+    NEUTRAL = ('is_skipped', 'iter', 'iter_mut', 'into_iter', 'filter', 'map', 'inspect', 'collect', 'len', 'is_empty', 'enumerate', 'peekable', 'clone', 'count')
+    for fn in ('parse_struct', 'parse_enum', 'parse_enum_variant'):
+        f = ctx.fnx(fn, file='parser.rs')
+        early = []
+        for c in f['calls']:
+            if str(c.get('f', '')).split('::')[-1] in NEUTRAL:
+                continue
+            vals = list(c.get('args', [])) + ([c['recv']] if c.get('recv') is not None else [])
+            def member_of(v3):
+                # the loop/closure element a value is a (field of a) member of: `f`, `f.attrs`, `f.ident.as_ref()`, `&f.ty`
+                v3 = vt.strip(v3)
+                d3 = 0
+                while isinstance(v3, dict) and d3 < 12:
+                    d3 += 1
+                    if v3.get('k') == 'elem':
+                        return v3
+                    if v3.get('k') == 'field':
+                        v3 = vt.strip(v3.get('base'))
+                    elif v3.get('k') in ('ref', 'paren', 'some'):
+                        v3 = vt.strip(v3.get('v'))
+                    elif v3.get('k') == 'call' and v3.get('recv') is not None and not v3.get('args'):
+                        v3 = vt.strip(v3['recv'])
+                    else:
+                        return None
+                return None
+            elems = [e3 for e3 in (member_of(v2) for v2 in vals) if e3 is not None]
+            for x in elems:
+                if not isinstance(x.get('of'), dict):
+                    continue
+                chain, src = [], vt.unvar(x['of'])
+                while isinstance(src, dict) and src.get('k') == 'call' and src.get('recv') is not None:
+                    chain.append(src)
+                    src = vt.unvar(src['recv'])
+                last = (src.get('path') or [None])[-1] if isinstance(src, dict) and src.get('k') == 'atom' else (src.get('name') if isinstance(src, dict) and src.get('k') == 'field' else None)
+                if last not in ('named', 'unnamed', 'variants') or 'syn' in str(src.get('ty') or '') and False:
+                    continue
+                rt = str(src.get('root_ty') or '') + json.dumps(src)[:300]
+                if not any(t in rt for t in ('ItemStruct', 'ItemEnum', 'Variant', 'FieldsNamed', 'FieldsUnnamed', 'Fields::')):
+                    continue
+                filtered = any(k2.get('f') == 'filter' and 'is_skipped' in json.dumps(k2.get('args')) for k2 in chain)
+                if not filtered:
+                    early.append((c, last))
+        key = f'{fn}:members-read-after-skip-filter'
+        rep.check(not early, 'S3', key, 'members are only inspected after the skip filter', f"{fn} inspects members of the `{early[0][1] if early else ''}` list with `{early[0][0].get('f') if early else ''}` before skipped members are filtered out: a member under serde(skip)/typeshare(skip) still influences (here: can fail) the item — the generated type must depend on the non-skipped members only", {'file': f['file'], 'line': early[0][0].get('line') if early else f['line']})
+
+
 def chain_of(v):
     """Method-call chain (outermost last) of an iterator expression."""
     out = []
@@ -206,6 +283,22 @@ def no_target(v):
         if not rest:
             return not dom
         return rest[0] if len(rest) == 1 else dict(v, args=rest)
+    if k == 'cond':
+        tt, ee = no_target(v.get('t')), no_target(v.get('e'))
+        if isinstance(tt, bool) and isinstance(ee, bool) and tt == ee:
+            return tt
+        cv = v.get('c')
+        while isinstance(cv, dict) and cv.get('k') == 'var':
+            cv = cv['v']
+        # `if attr.path().is_ident("cfg") { <target-os part> } else { <marker part> }`: an attribute named neither serde nor
+        # typeshare can never carry a skip marker, so with the target-os part gone the test only selects which part applies
+        ns_test = isinstance(cv, dict) and cv.get('k') == 'call' and cv.get('f') == 'is_ident' and isinstance(vt.strip(cv.get('recv')), dict) and vt.strip(cv['recv']).get('f') == 'path' \
+            and cv.get('args') and isinstance(vt.strip(cv['args'][0]), dict) and vt.strip(cv['args'][0]).get('k') == 'lit' and vt.strip(cv['args'][0]).get('v') not in ('serde', 'typeshare')
+        if ns_test and tt is False:
+            return ee
+        if ns_test and ee is False and not isinstance(tt, bool):
+            return v
+        return dict(v, t=tt, e=ee) if not (isinstance(tt, bool) or isinstance(ee, bool)) else v
     if k == 'call' and v.get('f') in ('any', 'all') and v.get('args') and isinstance(v['args'][0], dict) and v['args'][0].get('k') == 'closure':
         body = no_target(v['args'][0].get('body'))
         if isinstance(body, bool):
